@@ -274,6 +274,13 @@ func (m *c11) issue(rt *rapid.T, kind string) {
 	for i := 0; i < n; i++ {
 		r.filters = append(r.filters, fmt.Sprintf("q%d/%d/#", m.nTopic, i))
 	}
+	if rapid.IntRange(0, 7).Draw(rt, "aroundLengthStep") == 0 {
+		// one filter, sized such that the packet's remaining length is
+		// 126…130 (the step from one length byte to two)
+		f := fmt.Sprintf("q%d/", m.nTopic)
+		f += strings.Repeat("w", rapid.IntRange(121, 126).Draw(rt, "filterLen")-len(f)-1) + "#"
+		r.filters = []string{f}
+	}
 	req := &Req{Kind: kind, Filters: r.filters, Level: 2, Quit: r.quitKind}
 	m.Act("%s filters=%q quit=%s", kind, r.filters, r.quitKind)
 	switch kind {
